@@ -83,6 +83,8 @@ def task(p, cse, tier, seed):
                 if abs(fd - an) > 1e-4 * (1 + abs(an)):
                     part.harness_error(f"differentiator self-check failed d{r}/d{c} at {pt}: {fd} vs {an}")
 
+    env2 = pyh.second_env(env, keep=p.calibration)
+
     def harness():
         with installed(), quiet():
             ekf = pyh.build_ekf_sym(p, env, pn, sn, cse=cse)
@@ -91,15 +93,31 @@ def task(p, cse, tier, seed):
             out = {"G": ekf.process_jacobian(SymReal(env[p.dt]), st, ct), "V": ekf.control_jacobian(SymReal(env[p.dt]), st, ct)}
             for key in p.sensors:
                 out["H:" + key] = ekf.sensor_jacobian(key, st)
-        return out
+            snap = {k_: v.copy() for k_, v in out.items()}
+            # history dimension: the same filter object evaluated again at independent inputs
+            st2 = ekf.State(**pyh.sym_state_kwargs(p.state, env2))
+            ct2 = ekf.Control(**pyh.sym_state_kwargs(p.control, env2))
+            out2 = {"G": ekf.process_jacobian(SymReal(env2[p.dt]), st2, ct2), "V": ekf.control_jacobian(SymReal(env2[p.dt]), st2, ct2)}
+            for key in p.sensors:
+                out2["H:" + key] = ekf.sensor_jacobian(key, st2)
+            stable = all(lift(a).eq(lift(b)) for k_ in snap for a, b in zip(snap[k_].reshape(-1), out[k_].reshape(-1)))
+        return snap, out2, stable
 
     leaves = explore(harness, assumes=assumes, config={"gate": "assume"})
     part.leaves(leaves)
-    if len(leaves) != 1 or leaves[0].status != "ok":
-        part.harness_error(f"{key_base}: expected one ok path, got {leaves}")
+    if any(l.status != "ok" for l in leaves):
+        part.harness_error(f"{key_base}: a symbolic path failed: {[l for l in leaves if l.status != 'ok'][:2]}")
         return part.d
-    out = leaves[0].value
     reach(part, key_base + "/assumptions-sat", assumes)
+    base_assumes = list(assumes)
+    assumes2_extra = [pyh.subst_env(a, env, env2) for a in base_assumes]
+    second = []
+    for li, leaf in enumerate(leaves):
+        out, out2_, stable = leaf.value
+        second.append((leaf, out2_, stable))
+    out = leaves[0].value[0]
+    if len(leaves) > 1:
+        assumes = base_assumes + leaves[0].pc
 
     specs = {"G": (specG, ss, ss), "V": (specV, ss, sc)}
     for key in p.sensors:
@@ -123,13 +141,52 @@ def task(p, cse, tier, seed):
                     return {"impl": float(float_jacobians(p, cse, e)[which][i, j]), "spec": spec_float_jac(p, which, e)[i][j]}
 
                 prove_equal(part, PID, f"{key_base}/{which}[d {r}/d {c}]", lift(M[i, j]), spec[i][j], assumes, tmo, replay=replay, key=f"{key_base}/{which}[{r},{c}]", info={"program": p.id, "cse": cse, "which": which, "row": r, "col": c}, all_vars=allv)
+    # second evaluation on the same object (every path: a memoising implementation forks on "same argument as before?")
+    from .common import Q as _Q
+    from .common import solve as _solve
+
+    def float_second(e):
+        e1 = {nm: e.get(nm, 0.25) for nm in env}
+        e2 = {nm: (e1[nm] if nm in p.calibration else e.get(env2[nm].decl().name(), 0.5)) for nm in env}
+        with quiet():
+            pnv, snv = pyh.noise_vals_from_env(p, e1)
+            ekf = pyh.build_ekf_float(p, e1, cse=cse, pn=pnv, sn=snv)
+            res = None
+            for ee in (e1, e2):
+                st_ = ekf.State(**{s_: float(ee[s_]) for s_ in p.state})
+                ct_ = ekf.Control(**{c_: float(ee[c_]) for c_ in p.control})
+                res = {"G": ekf.process_jacobian(float(ee[p.dt]), st_, ct_), "V": ekf.control_jacobian(float(ee[p.dt]), st_, ct_)}
+                for key in p.sensors:
+                    res["H:" + key] = ekf.sensor_jacobian(key, st_)
+        return res, e2
+
+    allv2 = dict(allv)
+    allv2.update({v.decl().name(): v for v in env2.values()})
+    for leaf, out2_, stable in second:
+        a2 = base_assumes + assumes2_extra + leaf.pc
+        if len(second) > 1 and _solve(a2, 5000).status == "unsat":
+            continue
+        tag = key_base + (f"/path{second.index((leaf, out2_, stable))}" if len(second) > 1 else "")
+        part.record(_Q("unsat" if stable else "sat", None, 0.0, ""), f"{tag}: Jacobians handed out earlier are unchanged by a later evaluation")
+        if not stable:
+            part.d["inconclusive"].append(f"{tag}: earlier Jacobian arrays changed after a later call (aliasing)")
+        for which, (spec, rows, cols) in specs.items():
+            M2 = out2_[which]
+            for i, r in enumerate(rows):
+                for j, c in enumerate(cols):
+
+                    def replay(e, which=which, i=i, j=j):
+                        got, e2 = float_second(e)
+                        return {"impl": float(got[which][i, j]), "spec": spec_float_jac(p, which, e2)[i][j]}
+
+                    prove_equal(part, PID, f"{tag}/second evaluation {which}[d {r}/d {c}] at new inputs", lift(M2[i, j]), pyh.subst_env(spec[i][j], env, env2), a2, tmo, replay=replay, key=f"{key_base}/second/{which}[{r},{c}]", info={"program": p.id, "cse": cse, "which": which, "row": r, "col": c, "second": True}, all_vars=allv2)
     part.sample({"program": p.id, "cse": cse, "G[0][0]": str(z3.simplify(lift(out["G"][0, 0])))[:160], "spec": str(specG[0][0])[:160]})
     return part.d
 
 
 def programs_for(tier, seed):
     if tier == "quick":
-        return [CP.P1(), CP.P3(), CP.P8(), CP.P10()]
+        return [CP.P1(), CP.P3(), CP.P8(), CP.P10(), CP.P12()]
     ps = CP.all_fixed() + CP.presence_variants(CP.P3())[1:] + CP.presence_variants(CP.P10())[1:]
     ps += [CP.random_program(seed, i) for i in range(10)]
     return ps
@@ -158,6 +215,9 @@ def replay(path):
     ps = {p.id: p for p in programs_for("thorough", int(r.get("seed", 0)))}
     p = ps[info["program"]]
     e = r["inputs"]
+    if info.get("second"):
+        print("second-evaluation obligation: re-run bin/check C03 (needs the two-call sequence); inputs:", e)
+        return 1
     try:
         got = float_jacobians(p, info["cse"], e)
     except Exception as ex:
